@@ -178,6 +178,13 @@ def p_c18(prog, tr):
     return {"fatal": fatal_of(tr), "ops": [[vclass(o["v"]), o.get("info")] for o in ops_of(tr)]}
 
 
+def p_c15(prog, tr):
+    """what C15 says must not change: which registrations are accepted (and what Info reports), which functions run, and
+    which values each of them receives"""
+    return {"fatal": fatal_of(tr),
+            "ops": [[vclass(o["v"]), o.get("info"), [(e["fn"], e["x"], e["args"]) for e in enters(o)]] for o in ops_of(tr)]}
+
+
 def p_c19(prog, tr):
     return {"fatal": fatal_of(tr), "ops": [[vclass(o["v"]), o.get("dot"), bool((verr(o["v"]) or {}).get("viz"))] for o in ops_of(tr)]}
 
@@ -189,7 +196,7 @@ def p_c20(prog, tr):
         for e in o.get("ev", []):
             if e["e"] == "cb":
                 er = e["err"]
-                row.append(("cb", e["op"], er if er == "nil" else [er["root"], er["chain"]], e["rt"]))
+                row.append(("cb", e["op"], e.get("name", ""), er if er == "nil" else [er["root"], er["chain"]], e["rt"]))
             elif e["e"] == "exit":
                 row.append(("exit", e["fn"], e["x"], e["r"]))
             else:
@@ -205,13 +212,13 @@ def p_full(prog, tr):
 PROJ = {
     "C01": p_wiring, "C02": p_c02, "C03": p_c03, "C04": p_c04, "C05": p_c05, "C06": p_full, "C07": p_c07,
     "C08": p_wiring, "C09": p_wiring, "C10": p_c10, "C11": p_c11, "C12": p_wiring, "C13": p_c13, "C14": p_c14,
-    "C15": p_c18, "C16": p_c05, "C17": p_c17, "C18": p_c18, "C19": p_c19, "C20": p_c20,
+    "C15": p_c15, "C16": p_c05, "C17": p_c17, "C18": p_c18, "C19": p_c19, "C20": p_c20,
 }
 
 CORRESPONDENCE = {
     "C01": "K-engine", "C02": "K-engine", "C03": "K-engine", "C04": "K-engine", "C05": "K-engine+K-graph",
     "C06": "K-engine", "C07": "K-engine", "C08": "K-engine", "C09": "K-engine+K-reflect", "C10": "K-engine",
-    "C11": "K-engine", "C12": "K-engine", "C13": "K-error", "C14": "K-reflect+K-engine", "C15": "K-reflect",
+    "C11": "K-engine", "C12": "K-engine", "C13": "K-error", "C14": "K-reflect+K-engine", "C15": "K-reflect+K-engine",
     "C16": "K-engine", "C17": "K-engine", "C18": "K-reflect", "C19": "K-dot", "C20": "K-callback",
 }
 
@@ -409,6 +416,13 @@ def pred_c20(prog, tr):
                     bad.append("op %d: callback fired without an execution" % i)
                 if e["op"] not in cbops:
                     bad.append("op %d: callback of op %d which registered none" % (i, e["op"]))
+                elif e.get("name"):
+                    # generated-source mode: the runtime name of the function the registration stands for
+                    # (the one named with LocationForPC, if given)
+                    reg = prog["ops"][e["op"]]
+                    want = "F%d" % (reg["loc"] if "loc" in reg.get("opts", []) else reg["fn"])
+                    if e["name"] != want:
+                        bad.append("op %d: callback of op %d reports the name %s, the function is %s" % (i, e["op"], e["name"], want))
     return bad
 
 
@@ -760,17 +774,17 @@ def twin_c17(prog, impl_run):
 # ------------------------------------------------------------------ generator profiles
 
 PROFILE = {
-    "C01": {"shadow": 0.08, "reprovide": 0.3, "reinvoke": 0.5, "malformed": 0.05, "late": 0.08}, "C02": {"decorate": 0.25, "export": 0.3, "backedge": 0.2, "fault": 0.25, "retry": 0.08},
-    "C03": {"malformed": 0.05, "visualize": 0.08, "shadow": 0.12, "optional": 0.35}, "C04": {"shadow": 0.1, "deeptree": 0.3, "optional": 0.45, "malformed": 0.04, "late": 0.15, "export": 0.25},
-    "C05": {"selfcycle": 0.06, "backedge": 0.45, "export": 0.35, "scope": 0.18, "malformed": 0.03, "fault": 0.05, "defer": 0.35, "group": 0.4, "deepcycle": 0.15},
+    "C01": {"longchain": 0.03, "oddkinds": 0.04, "shadow": 0.08, "reprovide": 0.3, "reinvoke": 0.5, "malformed": 0.05, "late": 0.08}, "C02": {"longchain": 0.03, "decorate": 0.25, "export": 0.3, "backedge": 0.2, "fault": 0.25, "retry": 0.08},
+    "C03": {"longchain": 0.03, "malformed": 0.05, "visualize": 0.08, "shadow": 0.12, "optional": 0.35}, "C04": {"longchain": 0.05, "oddkinds": 0.05, "shadow": 0.1, "deeptree": 0.3, "optional": 0.45, "malformed": 0.04, "late": 0.15, "export": 0.25},
+    "C05": {"longchain": 0.05, "selfcycle": 0.06, "backedge": 0.45, "export": 0.35, "scope": 0.18, "malformed": 0.03, "fault": 0.05, "defer": 0.35, "group": 0.4, "deepcycle": 0.15},
     "C06": {"selfcycle": 0.1, "malformed": 0.3, "backedge": 0.35, "scope": 0.15, "decorate": 0.25, "export": 0.25, "deepcycle": 0.08},
-    "C07": {"fault": 0.45, "decorate": 0.25, "malformed": 0.03, "retry": 0.15, "late": 0.06}, "C08": {"shadow": 0.1, "deeptree": 0.4, "scope": 0.2, "export": 0.3, "malformed": 0.03, "max_scopes": 7, "reprovide": 0.4, "reinvoke": 0.6, "invoke": 0.4, "fault": 0.05},
-    "C09": {"named": 0.5, "as_": 0.4, "group": 0.4}, "C10": {"selfcycle": 0.05, "deeptree": 0.5, "max_scopes": 7, "group": 0.6, "scope": 0.15, "export": 0.25, "web": 0.12},
-    "C11": {"deeptree": 0.5, "max_scopes": 7, "scope": 0.15, "group": 0.65, "malformed": 0.03, "web": 0.12}, "C12": {"shadow": 0.08, "deeptree": 0.4, "max_scopes": 7, "decorate": 0.35, "scope": 0.15, "group": 0.4, "malformed": 0.03, "web": 0.2, "export": 0.3, "retry": 0.08},
-    "C13": {"fault": 0.4, "malformed": 0.25, "backedge": 0.25, "retry": 0.08, "late": 0.05}, "C14": {"selfcycle": 0.04, "malformed": 0.55, "visualize": 0.08, "vizgroup": 0.06},
-    "C15": {"shadow": 0.12, "obj_param": 0.6, "obj_result": 0.5, "malformed": 0.2, "embed": 0.3}, "C16": {"scope": 0.18, "backedge": 0.25, "group": 0.45, "fault": 0.0, "defer": 0.5, "malformed": 0.03, "deepcycle": 0.08},
-    "C17": {"dry": 0.5, "malformed": 0.2, "backedge": 0.25}, "C18": {"malformed": 0.25, "as_": 0.35, "obj_param": 0.6, "obj_result": 0.5, "loc": 0.3, "embed": 0.1},
-    "C19": {"vizgroup": 0.12, "loc": 0.15, "visualize": 0.22, "group": 0.55, "fault": 0.3, "malformed": 0.05, "decorate": 0.06, "scope": 0.06, "obj_result": 0.4, "recover": 0.8}, "C20": {"cb": 0.7, "fault": 0.35, "dry": 0.05, "retry": 0.08, "loc": 0.2},
+    "C07": {"longchain": 0.08, "fault": 0.45, "decorate": 0.25, "malformed": 0.03, "retry": 0.15, "late": 0.06}, "C08": {"shadow": 0.1, "deeptree": 0.4, "scope": 0.2, "export": 0.3, "malformed": 0.03, "max_scopes": 7, "reprovide": 0.4, "reinvoke": 0.6, "invoke": 0.4, "fault": 0.05},
+    "C09": {"oddkinds": 0.06, "strmix": 0.3, "oddstr": 0.12, "named": 0.5, "as_": 0.4, "group": 0.4}, "C10": {"oddkinds": 0.04, "strmix": 0.2, "selfcycle": 0.05, "deeptree": 0.5, "max_scopes": 7, "group": 0.6, "scope": 0.15, "export": 0.25, "web": 0.12},
+    "C11": {"strmix": 0.3, "deeptree": 0.5, "max_scopes": 7, "scope": 0.15, "group": 0.65, "malformed": 0.03, "web": 0.12}, "C12": {"strmix": 0.2, "shadow": 0.08, "deeptree": 0.4, "max_scopes": 7, "decorate": 0.35, "scope": 0.15, "group": 0.4, "malformed": 0.03, "web": 0.2, "export": 0.3, "retry": 0.08},
+    "C13": {"longchain": 0.06, "fault": 0.4, "malformed": 0.25, "backedge": 0.25, "retry": 0.08, "late": 0.05}, "C14": {"longchain": 0.04, "oddkinds": 0.1, "selfcycle": 0.04, "malformed": 0.55, "visualize": 0.08, "vizgroup": 0.06},
+    "C15": {"oddkinds": 0.1, "oddstr": 0.1, "shadow": 0.12, "obj_param": 0.6, "obj_result": 0.5, "malformed": 0.2, "embed": 0.3}, "C16": {"scope": 0.18, "backedge": 0.25, "group": 0.45, "fault": 0.0, "defer": 0.5, "malformed": 0.03, "deepcycle": 0.08},
+    "C17": {"dry": 0.5, "malformed": 0.2, "backedge": 0.25}, "C18": {"oddkinds": 0.08, "oddstr": 0.25, "strmix": 0.15, "malformed": 0.25, "as_": 0.35, "obj_param": 0.6, "obj_result": 0.5, "loc": 0.3, "embed": 0.1},
+    "C19": {"vizgroup": 0.12, "loc": 0.15, "visualize": 0.22, "group": 0.55, "fault": 0.3, "malformed": 0.05, "decorate": 0.06, "scope": 0.06, "obj_result": 0.4, "recover": 0.8}, "C20": {"longchain": 0.03, "cb": 0.7, "fault": 0.35, "dry": 0.05, "retry": 0.08, "loc": 0.2},
 }
 
 
